@@ -210,11 +210,20 @@ Definition svc_time_check (now : N) (s : service) (healthy_time offline_time : N
   let '(s4, ulist) := tc_update_loop healthy_time s3 hkeys [] in
   (s4, rlist, ulist).
 
-(** [Service::do_refresh_process_range] (service.rs:256-277) *)
-Definition svc_refresh (s : service) : service :=
-  let taken := filter (fun i => negb (i_grpc i) && is_from_cluster i) (avals (s_insts s)) in
-  mkSvc (s_insts s) (s_size s) (s_hsize s) (s_perp s) (s_meta s)
-        (s_hset s ++ map (fun i => (i_lm i, i_key i)) taken) (s_uset s) (s_thr s) (s_last_empty s).
+(** [Service::do_refresh_process_range] (service.rs:256-288, after the repair "instances taken
+    over become locally owned"): the taken-over instances are collected first, then each one is
+    re-armed and stored again with [from_cluster = 0] *)
+Definition refresh_taken (s : service) : list inst :=
+  filter (fun i => negb (i_grpc i) && is_from_cluster i) (avals (s_insts s)).
+
+Definition refresh_one (s : service) (i : inst) : service :=
+  let local := set_origin i (i_grpc i) 0 (i_client i) in
+  mkSvc (iset (i_key local) local (s_insts s)) (s_size s) (s_hsize s) (s_perp s) (s_meta s)
+        (ts_add (i_lm i) (i_key i) (s_hset s))
+        (if negb (i_healthy local) then ts_add (i_lm local) (i_key local) (s_uset s) else s_uset s)
+        (s_thr s) (s_last_empty s).
+
+Definition svc_refresh (s : service) : service := fold_left refresh_one (refresh_taken s) s.
 
 (** [Service::get_all_instances] (service.rs:390-401) *)
 Definition svc_all_instances (s : service) (only_healthy only_enable : bool) : list inst :=
